@@ -75,6 +75,8 @@ class MiniCF:
         self._send_lock = threading.Lock()
         self._answer_patterns = {}
         self.packet_sent = Caller()
+        self.disconnected = Caller()
+        self.connection_requested = Caller()
         self.platform = _Platform(version)
         self.port_cbs = []
 
